@@ -568,6 +568,7 @@ func c16Run(c *Case) {
 	case c.Idx < nm:
 		c16Matrix(c, c.Idx)
 		if c.Idx == 0 {
+			round8Hand(c, "C16")
 			c16DirectReceivers(c)
 		}
 		if c.Idx == 1 {
